@@ -8,6 +8,7 @@ count the counting method actually used.
 
 from __future__ import annotations
 
+import itertools
 import math
 
 import numpy as np
@@ -211,8 +212,12 @@ def make_data(spec, f):
         k = int(r.integers(3, 7))
         lengths = r.permutation(np.arange(int(0.4 * n_long), int(0.86 * n_long)))[:k]  # pairwise distinct
         y = int(r.integers(1, 4))
+        areas = set()
         for L in lengths:
             th = int(r.integers(2, 5))
+            if int(L) * th in areas:  # no two bars of the same volume (an exact tie for the overlap removal)
+                th = next(t for t in (2, 3, 4, 5, 6, 7) if int(L) * t not in areas)
+            areas.add(int(L) * th)
             if y + th >= n_across - 1:
                 break
             x0 = int(r.integers(0, n_long)) if per[ax] else int(r.integers(0, max(1, n_long - int(L))))
@@ -385,8 +390,22 @@ def run(case, rec, *, ignore_known=False):
             tval = {"auto": (float(data.min()) + float(data.max())) / 2, "extrema": (float(data.min()) + float(data.max())) / 2,
                     "mean": float(data.mean())}.get(thr, 0.5)
             comps, _ = c02.expected_components(spec, data > tval)
+            tie = False
+            if not any(cc["winding"] for cc in comps):
+                per_c = geom.cart_periodicity(spec)
+                for ca, cb in itertools.combinations(comps, 2):
+                    if abs(ca["volume"] - cb["volume"]) <= 1e-9 * max(ca["volume"], cb["volume"]):
+                        r_eq = (ca["volume"] / {1: 2.0, 2: math.pi, 3: 4 * math.pi / 3}[dim]) ** (1 / dim)
+                        pa_, pb_ = np.asarray(ca["positions"][0], float), np.asarray(cb["positions"][0], float)
+                        if min(geom.distance(pa_, pb_, per_c), float(np.linalg.norm(pa_ - pb_))) <= 2 * r_eq * (1 + 1e-9):
+                            tie = True
             if any(cc["winding"] for cc in comps):
                 rec.count("count_roll_skipped_winding_component")
+            elif tie:
+                # two overlapping equal-volume spheres from domains of exactly the same volume: which of them
+                # survives the overlap removal ("the smaller one is removed") is an exact tie, decided by the label
+                # order - which follows the translation
+                rec.count("count_roll_skipped_domains_of_equal_volume")
             else:
                 rolls = [list(case["roll"])]
                 if case["field"]["type"] in ("bars", "speckled"):  # several translations: label order / cut position changes with each
